@@ -572,3 +572,38 @@ M("C18", "seed-31-random-bytes", "admin/onboard.py",
 M("C18", "unlock-modes-signer-allowed", "admin/unlock.py",
   "    if mode == HSM2Dongle.MODE.SIGNER or mode == HSM2Dongle.MODE.UI_HEARTBEAT:\n        raise AdminError(\"Device already unlocked\")",
   "    if mode == HSM2Dongle.MODE.UI_HEARTBEAT:\n        raise AdminError(\"Device already unlocked\")")
+
+# ---- state carried between requests / boundary mutants added after seeded rounds 2-3
+M("C01", "memo-input-index-per-tx", "ledger/protocol.py",
+  '''                    input_index=msg["input"],''',
+  '''                    input_index=self.__dict__.setdefault("_idx_memo", {}).setdefault(
+                        msg["tx"], msg["input"]),''')
+M("C01", "memo-receipt-per-tx", "ledger/protocol.py",
+  '''                    rsk_tx_receipt=request["auth"]["receipt"],''',
+  '''                    rsk_tx_receipt=self.__dict__.setdefault("_rc_memo", {}).setdefault(
+                        msg["tx"], request["auth"]["receipt"]),''')
+M("C14", "memo-unsigned-tx-stale-key", "ledger/protocol.py",
+  '''                unsigned_btc_tx = get_unsigned_tx(msg["tx"])
+''',
+  '''                if msg["tx"] != self.__dict__.get("_lt"):
+                    self._lt = msg["tx"]
+                    self._lu = get_unsigned_tx(msg["tx"])
+                unsigned_btc_tx = self._lu
+''')
+M("C02", "reconnect-before-second-stage-validation", "ledger/protocol.py",
+  '''            # Shorthand
+            msg = request["message"]
+''',
+  '''            # Shorthand
+            msg = request["message"]
+            try:
+                self.ensure_connection()
+            except HSM2DongleCommError:
+                return (self.ERROR_CODE_DEVICE,)
+''')
+M("C05", "rlp-list-boundary-f7", "ledger/block_utils.py",
+  '''    if b >= 0xC0 and b <= 0xF7:''', '''    if b >= 0xC0 and b < 0xF7:''')
+M("C07", "frozen-now-at-import", "admin/certificate_v2.py",
+  '''            now = datetime.now(UTC)''',
+  '''            now = HSMCertificateV2ElementX509.__dict__.get("_T0") or datetime.now(UTC)
+            HSMCertificateV2ElementX509._T0 = now''')
